@@ -196,6 +196,7 @@ func (x *Exec) registerIntrinsics() {
 		return p.strConst(strconv.Itoa(int(v))), nil
 	}
 	x.registerHarnessIntrinsics()
+	x.registerConfineIntrinsics()
 	x.registerContracts()
 }
 
